@@ -684,6 +684,54 @@ fn reclaim_case_eos(mode: u8, queued_behind: bool, eos_fixed: Option<bool>) {
     kani::cover!(true, "end");
     forget(w);
 }
+/// Ghost-deque form of the reclaim obligation (quick tier): `Deque::push_front` records the
+/// put-back and checks it is exactly bytes [off+n, off+sz) with END_STREAM restored;
+/// `push_back` is an unreachability stub (a tail appended behind later frames reorders bytes).
+fn reclaim_tail_ghost(eos: bool) {
+    let mut w = world(3);
+    {
+        let mut p = w.store.resolve(w.key);
+        st_h::set_inner_open_streaming(&mut p.state);
+    }
+    let sz: usize = kani::any();
+    let n: usize = kani::any();
+    let off: usize = kani::any();
+    kani::assume(sz as u64 <= MAXW as u64 && n <= sz && off <= (1usize << 40));
+    let mut d = frame::Data::new(StreamId::from(ID), Prioritized {
+        inner: bytes::Buf::take(SymBuf { off, rem: sz }, n),
+        end_of_stream: eos,
+        stream: w.key,
+    });
+    d.set_end_stream(eos && n == sz);
+    d.payload_mut().inner.advance(n);
+    unsafe {
+        buf_h::G_DATA = (off + n, sz - n, eos);
+        buf_h::G_FRONT_PUTS = 0;
+    }
+    let pre = sym_pre(&mut w, None);
+    set_in_flight(&mut w.prio, Some(w.key));
+    let r = w.prio.reclaim_frame_inner(&mut w.buffer, &mut w.store, d);
+    assert!(in_flight_is_nothing(&w.prio), "in-flight marker not cleared");
+    let q = post(&mut w);
+    assert!(q.a == pre.a && q.ca == pre.ca && q.w == pre.w && q.cw == pre.cw && q.buffered == pre.buffered, "reclaim must not touch the ledgers");
+    let p = w.store.resolve(w.key);
+    let puts = unsafe { buf_h::G_FRONT_PUTS };
+    if n < sz {
+        assert!(r, "unwritten tail not reported as reclaimed");
+        assert!(puts == 1, "C01.reclaim: unwritten tail not put back exactly once at the front of the stream's queue");
+        if pre.a > 0 {
+            assert!(p.is_pending_send, "Q2: stream with capacity and an unwritten tail not rescheduled");
+        }
+    } else {
+        assert!(!r && puts == 0, "C01.reclaim: a fully written frame was re-queued (bytes duplicated)");
+    }
+    kani::cover!(r, "tail_requeued");
+    kani::cover!(!r, "fully_written");
+    kani::cover!(true, "end");
+    forget(w);
+}
+pub fn c01_reclaim_tail_ghost() { reclaim_tail_ghost(false) }
+pub fn c01_reclaim_tail_eos_ghost() { reclaim_tail_ghost(true) }
 pub fn c01_reclaim_tail() { reclaim_case_eos(0, false, Some(false)) }
 pub fn c01_reclaim_tail_eos() { reclaim_case_eos(0, false, Some(true)) }
 pub fn c01_reclaim_tail_queue_behind() { reclaim_case(0, true) }
